@@ -1,7 +1,7 @@
 FWD = TOK + ["src/HttpHeader.cc", "src/HttpHeaderTools.cc", "src/HeaderMangling.cc", "src/http/RegisteredHeaders.cc", "src/http/ContentLengthInterpreter.cc",
              "src/http/one/Parser.cc", "src/String.cc", "src/StrList.cc", "src/MemBuf.cc", "src/mime_header.cc", "src/SquidConfig.cc",
              "src/ip/Address.cc", "src/helper/ChildConfig.cc", "lib/util.cc", "compat/xstring.cc",
-             "src/HttpRequest.cc", "src/HttpHdrCc.cc", "src/http/RequestMethod.cc", "src/http/MethodType.cc", "src/refresh.cc", "src/globals.cc"]
+             "src/HttpRequest.cc", "src/HttpHdrCc.cc", "src/http/RequestMethod.cc", "src/http/MethodType.cc", "src/refresh.cc", "src/globals.cc", "src/anyp/Uri.cc", "src/anyp/UriScheme.cc"]
 # xstrdup is an engine model (engine/models/libc.c); the real compat/xstring.cc is linked for xstrncpy with its xstrdup renamed away
 FWD_FLAGS = {"compat/xstring.cc": ["-Dxstrdup=vf_unused_squid_xstrdup"]}
 _e = lambda n, b, r, **kw: dict(name=n, bounds=b, reach=list(r), **dict(dict(sample_every=61, max_samples=6), **kw))
